@@ -347,7 +347,7 @@ class Job:
 
     def __init__(self, ctx, jobs=12):
         import threading
-        n = ctx.size(280, 8000)
+        n = ctx.size(280, 6000)
         self.items = ['C17-%s-hist-%d' % (ctx.seed, i) for i in range(n)]
         self.jobs = jobs
         self.result = self.error = None
